@@ -97,8 +97,10 @@ var errNoSS = errors.New("no snapshot")
 // aSnapshotter hands out the snapshot record the harness configured; snapshots are "dummy"
 // (no payload for the user state machine): only the index discipline is under test here
 type aSnapshotter struct {
-	ss  pb.Snapshot
-	has bool
+	ss      pb.Snapshot
+	has     bool
+	streams []string // per stream task: "refused" or "<SSMeta.Index>:<SSMeta.OnDiskIndex>"
+	metas   [][2]uint64
 }
 
 func (s *aSnapshotter) GetSnapshot() (pb.Snapshot, error) {
@@ -107,7 +109,11 @@ func (s *aSnapshotter) GetSnapshot() (pb.Snapshot, error) {
 	}
 	return s.ss, nil
 }
-func (s *aSnapshotter) Stream(hk.IStreamable, hk.SSMeta, pb.IChunkSink) error { return errors.New("unused") }
+func (s *aSnapshotter) Stream(_ hk.IStreamable, meta hk.SSMeta, _ pb.IChunkSink) error {
+	s.streams = append(s.streams, fmt.Sprintf("%d:%d", meta.Index, meta.OnDiskIndex))
+	s.metas = append(s.metas, [2]uint64{meta.Index, meta.OnDiskIndex})
+	return nil
+}
 func (s *aSnapshotter) Shrunk(pb.Snapshot) (bool, error)                       { return false, nil }
 func (s *aSnapshotter) Save(hk.ISavable, hk.SSMeta) (pb.Snapshot, hk.SSEnv, error) {
 	return pb.Snapshot{}, hk.SSEnv{}, errors.New("unused")
@@ -195,6 +201,8 @@ func runApplyCase(id string, hdr []string, ops []string, st *vh.Stats, line stri
 			case "REC":
 				i, _ := strconv.ParseUint(f[1], 10, 64)
 				s.TaskQ().Add(hk.Task{Recover: true, Index: i})
+			case "STREAM":
+				s.TaskQ().Add(hk.Task{Stream: true, ShardID: 1, ReplicaID: 2})
 			}
 		}
 		batch := make([]hk.Task, 0, 8)
@@ -208,6 +216,16 @@ func runApplyCase(id string, hdr []string, ops []string, st *vh.Stats, line stri
 			if t.Recover {
 				ss.ss, ss.has = dummySS(t.Index), true
 				_, _ = s.Recover(t) // ErrSnapshotOutOfDate is what the snapshot worker ignores too
+			}
+			if t.Stream {
+				// node.handleSnapshotTask -> canStream -> ReadyToStream; then ssWorker.stream -> StateMachine.Stream
+				if s.ReadyToStream() {
+					if err := s.Stream(nil); err != nil {
+						panic(err)
+					}
+				} else {
+					ss.streams = append(ss.streams, "refused")
+				}
 			}
 			if !t.IsSnapshotTask() && before == 0 {
 				break
@@ -227,6 +245,17 @@ func runApplyCase(id string, hdr []string, ops []string, st *vh.Stats, line stri
 			st.Violation(id, fmt.Sprintf("Update index %d after %d", rec.calls[i][0], rec.calls[i-1][0]))
 		}
 	}
+	for _, m := range ss.metas {
+		// the image of an on-disk state machine contains everything up to the index Open returned
+		// and up to SSMeta.OnDiskIndex; the receiver is handed the entries after the label
+		content := m[1]
+		if kind == "disk" && init > content {
+			content = init
+		}
+		if kind == "disk" && m[0] < content {
+			st.Violation(id, fmt.Sprintf("streamed image labelled with index %d contains the state up to index %d: the receiver is handed entries %d..%d again", m[0], content, m[0]+1, content))
+		}
+	}
 	if errc == 9 {
 		st.Violation(id, "unexpected panic of the apply path: "+p)
 	}
@@ -242,7 +271,12 @@ func runApplyCase(id string, hdr []string, ops []string, st *vh.Stats, line stri
 	st.Count("apply-kind:" + kind)
 	st.Count(fmt.Sprintf("apply-err:%d", errc))
 	st.Case(line, dropped || errc != 0 || (kind == "disk" && init > applied), line)
-	return fmt.Sprintf("%s apply err=%d index=%d calls=%s\n", id, errc, hk.Index(s), cs)
+	sts := "-"
+	if len(ss.streams) > 0 {
+		sts = strings.Join(ss.streams, ",")
+		st.Count("apply-with-stream-task")
+	}
+	return fmt.Sprintf("%s apply err=%d index=%d calls=%s streams=%s\n", id, errc, hk.Index(s), cs, sts)
 }
 
 // genApplyCases: streams of batches; mostly gap-free, with re-sent prefixes, non-update entries,
@@ -260,9 +294,12 @@ func genApplyCases(r *vh.Rand, w *vh.LineWriter, a vh.Args) {
 	for c := 0; c < n; c++ {
 		kind := []string{"plain", "conc", "disk"}[r.Intn(3)]
 		applied := uint64(r.Intn(6))
+		if kind == "disk" && applied == 0 {
+			applied = 1 // the membership (needed by a stream's metadata) comes with the initial snapshot record
+		}
 		init := uint64(0)
 		if kind == "disk" {
-			init = uint64(r.Intn(10))
+			init = uint64(r.Intn(14))
 		}
 		next := applied + 1
 		var ops []string
@@ -273,6 +310,10 @@ func genApplyCases(r *vh.Rand, w *vh.LineWriter, a vh.Args) {
 				ops = append(ops, "SYNC")
 			case 1:
 				ops = append(ops, "SAVE")
+			case 3, 4:
+				if kind == "disk" {
+					ops = append(ops, "STREAM")
+				}
 			case 2:
 				i := next + uint64(r.Intn(4))
 				if r.Intn(3) == 0 && next > 1 {
@@ -310,6 +351,9 @@ func genApplyCases(r *vh.Rand, w *vh.LineWriter, a vh.Args) {
 			if idx > next {
 				next = idx
 			}
+		}
+		if kind == "disk" && r.Intn(2) == 0 {
+			ops = append(ops, "STREAM")
 		}
 		disk := 0
 		if kind == "disk" {
